@@ -96,6 +96,8 @@ func (a *Act) callFunc(st *State, callee *ssa.Function, closure *Closure, args [
 			return a.inline(st, callee, closure, args, pos)
 		}
 		tr.havocked[name] = true
+		a.havocCallee = callee
+		defer func() { a.havocCallee = nil }()
 		return a.havocCall(st, callee.Signature, args, true, pos, name)
 	}
 	// 4. unknown external function: results unconstrained, lisp heap untouched
@@ -157,19 +159,28 @@ func (a *Act) havocCall(st *State, sig *types.Signature, args []Term, module boo
 	}()
 	if module {
 		now := st.alloc
-		for _, cn := range sortedKeys(tr.comps) {
-			c := tr.comps[cn]
-			if c.local {
+		pre := st.copy()
+		all, mods := true, map[string]bool(nil)
+		if a.havocCallee != nil {
+			mods, all = a.calleeMods(a.havocCallee)
+			// allocation by the callee touches the value components
+			for cn, c := range tr.comps {
+				if c.value {
+					mods[cn] = true
+				}
+			}
+		}
+		st.prov = &prov{kind: "havoc", prev: pre, all: all, mods: mods, hint: "call",
+			keepValue: func(key []Term) Term { return app("<=", key[0], now) }}
+		for name := range st.heap {
+			c := tr.comps[name]
+			if c == nil || c.local {
 				continue
 			}
-			prev := tr.heapOf(st, c)
-			if len(c.keySorts) == 0 {
-				st.heap[cn] = tr.newHeapBase(c, "call_"+cn)
-			} else if c.value {
-				st.heap[cn] = tr.heapFrame(prev, func(key []Term) Term { return app("<=", key[0], now) }, "call_"+cn)
-			} else {
-				tr.havocCells(st, c, "call")
+			if !all && !mods[name] && !c.value {
+				continue
 			}
+			delete(st.heap, name)
 		}
 		na := tr.freshConst("alloc_call", "Int")
 		tr.assume(Implies(st.reach, app(">=", na, now)), "allocation counter monotone")
